@@ -2,6 +2,7 @@ package main
 
 import (
 	"fmt"
+	"go.sia.tech/core/consensus"
 
 	"go.sia.tech/core/types"
 	"verif/harness/lab/chainlab"
@@ -203,7 +204,31 @@ func (h *c19Hist) submit(batch []*chainlab.Node, what string) {
 	fork := chainlab.CommonAncestor(last, h.pTip)
 	before := h.P.ServedView(false)
 	var perr error
-	if p := mon.Guard(func() { perr = h.P.CM.AddBlocks(chainlab.Blocks(batch)) }); p != nil {
+	// fully valid v2 batches above the require height sometimes arrive through
+	// the pre-validated path, as the syncer delivers them
+	validated := h.t.Rng.IntN(3) == 0
+	var states []consensus.State
+	for _, n := range batch {
+		// (only blocks the node has not been given before: re-delivering a pruned
+		// block this way stores its body again, which the property does not rule
+		// out or demand)
+		if !n.ChainValid || n.Block.V2 == nil || n.Height <= h.cs.Params.Require || h.stored[n.ID] {
+			validated = false
+			break
+		}
+		states = append(states, n.L.State)
+	}
+	if validated {
+		what += " (pre-validated)"
+		h.r.Count("prevalidated_batches_on_pruned_node", 1)
+	}
+	if p := mon.Guard(func() {
+		if validated {
+			perr = h.P.CM.AddValidatedV2Blocks(chainlab.Blocks(batch), states)
+		} else {
+			perr = h.P.CM.AddBlocks(chainlab.Blocks(batch))
+		}
+	}); p != nil {
 		h.viol("addblocks-panic-pruned", fmt.Sprintf("AddBlocks panicked on the pruned node (%s, fork point height %d, min reorg height %d): %v", what, fork.Height, min.Height, p), nil)
 		return
 	}
